@@ -1,7 +1,7 @@
 """C17 — CREATE SEQUENCE options reported with exact values, in any order (E1, reference model)."""
 import itertools
 
-from ..util import diff, run_ddl, short, snippet as _snip
+from ..util import diff, norm, run_ddl, short, snippet as _snip
 
 ID = "C17"
 LEVEL = "exploration"
@@ -15,7 +15,8 @@ LEVEL_TEXT = ("Every ordered selection of the six option groups with both spelli
               " ALTER statements placed right after the sequence must still reach their table."
               ' Wave 5: 29 name spellings incl. names that begin with the letters of a type keyword (array_ids, ARRAY_IDS, ARRAYS.Q1, enum_seq, MAP_SEQ); thorough additionally runs every selection of 3 options in every context and with every value rotation, and every selection in mixed keyword case between two tables (250 000 statements).'
               " Defect hunt: the sequence between / after statements WITHOUT ';' (values must keep their last digit), a ';'-terminated last line after a ';'-less statement."
-              " Wave 6: the mixed-terminator script (an unterminated statement ended by a complete one-line ';'-terminated statement).")
+              " Wave 6: the mixed-terminator script (an unterminated statement ended by a complete one-line ';'-terminated statement)."
+              " Wave 7: every selection of <=2 options with boundary values asked for as JSON text, grouped, dumped to a file (run(dump=True, file_path=..)) and their combinations - the integers must stay integers and the flags booleans; all 29 name spellings under all 14 non-default output modes; every digit count 1..45 of a value, both signs.")
 LEVEL_NOTE = "Integer values come from a fixed boundary set {0,1,-1,5,+-2^31,2^63-1,-2^63}; other magnitudes are not enumerated."
 RULE = ("case = (ordered option selection, spelling per option, value rotation, keyword case, context); expected dict known by "
         "construction; non-trivial = at least one option; distinct by rendered statement")
@@ -95,6 +96,21 @@ def gen_cases(tier):
             cases.append({"sel": s, "voff": 2, "kcase": "upper", "ctx": "twoseq"})
         elif len(s) == 3:
             cases.append({"sel": s, "voff": 1, "kcase": "upper", "ctx": "between"})
+        if len(s) <= 2:
+            # wave 7: the same statement through every way of asking for the result (JSON text, grouped, dumped to a file, and combinations),
+            # with boundary values in every slot; every name spelling under every output mode
+            for via in VIAS:
+                for v in (0, 4, 6, 9, 12):
+                    cases.append({"sel": s, "voff": v, "kcase": "upper", "ctx": "alone", "via": via})
+        if len(s) <= 1:
+            for ni in range(len(NAMEFORMS)):
+                for m in MODES:
+                    cases.append({"sel": s, "voff": 3, "kcase": "upper", "ctx": "alone", "name": ni, "nn": bool(ni % 2), "mode": m})
+        if len(s) == 1 and G[s[0][0]][s[0][1]][2] == "int":
+            # scale sweep: every digit count 1..45 for the value, both signs
+            for k in range(1, 46):
+                for sign in (1, -1):
+                    cases.append({"sel": s, "voff": 0, "kcase": "upper", "ctx": "alone", "digits": k * sign})
         if len(s) <= 1 or (len(s) == 2 and s[0][1] == 0 and s[1][1] == 0):
             for ni in range(2, len(NAMEFORMS)):
                 for nn in (False, True):
@@ -104,8 +120,56 @@ def gen_cases(tier):
     return cases
 
 
+VIAS = ["json", "group", "dump", "dump+json", "dump+group", "group+json"]
+
+
+def run_via(ddl, via):
+    """the result of one statement asked for in another way, brought back to the flat list form (the dump file must hold the same data)"""
+    import json as _json
+    import shutil
+    import tempfile
+    from simple_ddl_parser import DDLParser
+    from .. import sut
+
+    kw, d = {}, None
+    if "json" in via:
+        kw["json_dump"] = True
+    if "group" in via:
+        kw["group_by_type"] = True
+    try:
+        if "dump" in via:
+            d = tempfile.mkdtemp(prefix="c17_", dir=sut.scratch_base())
+            kw.update(dump=True, dump_path=d + "/out", file_path=d + "/seq.sql")
+        try:
+            r = DDLParser(ddl).run(**kw)
+        except Exception as e:  # noqa
+            return ["exc", type(e).__name__, str(e)[:200]]
+        if "json" in via:
+            if not isinstance(r, str):
+                return ["exc", "not-a-json-string", short(r)]
+            r = _json.loads(r)
+        if "group" in via:
+            r = list(r.get("sequences", [])) if isinstance(r, dict) else r
+        if d:
+            import os
+            fs = os.listdir(d + "/out") if os.path.isdir(d + "/out") else []
+            if len(fs) != 1:
+                return ["exc", "dump-file-set", str(fs)]
+            f = _json.load(open(d + "/out/" + fs[0]))
+            f = list(f.get("sequences", [])) if isinstance(f, dict) else f
+            if norm(f) != norm(r):
+                return ["exc", "dump-differs-from-result", short([f, r])]
+        return ["ok", norm(r)]
+    finally:
+        if d:
+            shutil.rmtree(d, ignore_errors=True)
+
+
 def build(case):
     vals = VALS[case["voff"]:] + VALS[:case["voff"]]
+    if case.get("digits"):
+        k = case["digits"]
+        vals = [(1 if k > 0 else -1) * int(("8123456790" * 5)[:abs(k)])]
     schema, qname = (None if case["ctx"] == "noschema" else "s"), "q1"
     if "name" in case:
         schema, qname = NAMEFORMS[case["name"]]
@@ -161,9 +225,13 @@ def same_seq(got, want):
 
 def evaluate(case):
     ddl, exp = build(case)
-    r = run_ddl(ddl, {"normalize_names": True} if case.get("nn") else None, {"output_mode": case["mode"]} if case.get("mode") else None)
+    if case.get("via"):
+        r = run_via(ddl, case["via"])
+    else:
+        r = run_ddl(ddl, {"normalize_names": True} if case.get("nn") else None, {"output_mode": case["mode"]} if case.get("mode") else None)
     if case.get("mode") == "bigquery":
-        exp = {("dataset" if k == "schema" else k): v for k, v in exp.items()}
+        # (a sequence without a schema keeps the key "schema": None in BigQuery mode - the statement does not say which key holds "no schema")
+        exp = {("dataset" if k == "schema" else k): v for k, v in exp.items() if not (k == "schema" and v is None)}
     diffs = []
     if r[0] != "ok":
         diffs.append(diff("run", "raises", "result", r[1:3]))
